@@ -375,6 +375,8 @@ def main(chk):
     # the particle id read back from a key is the one that was packed into it: every field of the keys is wide enough for its largest value (rule shared with C01)
     c01.rule_field_widths(chk)
     c01.rule_tables_emptied(chk)
+    # ... and no cached neighbour list outlives the re-ordering: every entry of every cache is invalidated by the update that follows it (rule shared with C01)
+    c01.rule_cache(chk)
     chk.assume('that head/next, pid and key tables hold each particle exactly once is not decided (see C01)')
 
 
